@@ -34,6 +34,13 @@ func (ld *Loaded) staticScans(id string) []*FuncResult {
 				has = true
 			}
 		}
+		if has && (fd.Kind == "atomic" || fd.Kind == "guarded_by" || fd.Kind == "published_by" || fd.Kind == "owned_by") {
+			out = append(out, ld.protectScan(fd))
+			if fd.Kind != "atomic" {
+				continue
+			}
+			continue
+		}
 		if has && fd.Kind == "nouse" {
 			out = append(out, ld.nouseScan(fd))
 			continue
